@@ -39,8 +39,21 @@ Definition src_pts (bv : list bool) (p : pstate) (s : asrc) : list nat :=
   end.
 Definition init_state (sk : skel) : pstate :=
   map (fun k => if existsb (Nat.eqb k) (sk_targs sk) then [k] else []) (seq 0 (sk_nvars sk)).
-Fixpoint iter {A} (n : nat) (f : A -> A) (x : A) : A := match n with 0 => x | S k => iter k f (f x) end.
-(* k: how often a loop body is iterated (points-to sets only grow, k = number of variables + 1 reaches the fixpoint) *)
+Fixpoint list_eqb {A} (eqb : A -> A -> bool) (a b : list A) : bool :=
+  match a, b with
+  | [], [] => true
+  | x :: a', y :: b' => eqb x y && list_eqb eqb a' b'
+  | _, _ => false
+  end.
+Definition state_eqb (a b : pstate * list nat) : bool :=
+  list_eqb (list_eqb Nat.eqb) (fst a) (fst b) && list_eqb Nat.eqb (snd a) (snd b).
+(* iterate a loop body until nothing changes (points-to sets only grow), at most n times *)
+Fixpoint iter (n : nat) (f : pstate * list nat -> pstate * list nat) (x : pstate * list nat) : pstate * list nat :=
+  match n with
+  | 0 => x
+  | S k => let y := f x in if state_eqb y x then x else iter k f y
+  end.
+(* k: bound on the number of iterations of a loop body; (number of variables + 1) * (number of parameters + 1) changes suffice *)
 Fixpoint step (k : nat) (bv : list bool) (st : pstate * list nat) (i : instr) : pstate * list nat :=
   match i with
   | IAssign strong v srcs =>
@@ -51,7 +64,7 @@ Fixpoint step (k : nat) (bv : list bool) (st : pstate * list nat) (i : instr) : 
   | ILoop body => iter k (fun s => fold_left (step k bv) body s) st
   end.
 Definition written (sk : skel) (bv : list bool) : list nat :=
-  snd (fold_left (step (S (sk_nvars sk)) bv) (sk_code sk) (init_state sk, [])).
+  snd (fold_left (step (S (sk_nvars sk) * S (List.length (sk_targs sk))) bv) (sk_code sk) (init_state sk, [])).
 
 Fixpoint all_vectors (n : nat) : list (list bool) :=
   match n with
